@@ -3,6 +3,7 @@ package rag
 import (
 	"strings"
 	"unicode"
+	"unicode/utf8"
 )
 
 // OverlapStrategy defines how overlap between chunks is computed
@@ -150,8 +151,11 @@ func (og *OverlapGenerator) generateCharacterOverlap(text string) string {
 		return text
 	}
 
-	// Start from target position
+	// Start from target position, never inside a multi-byte character
 	start := len(text) - og.config.Size
+	for start < len(text) && !utf8.RuneStart(text[start]) {
+		start++
+	}
 
 	// If preserving words, find the next word boundary
 	if og.config.PreserveWords {
@@ -237,38 +241,47 @@ func (og *OverlapGenerator) truncateOverlap(overlap string) string {
 		return overlap
 	}
 
-	// Try to truncate at a sentence boundary
+	// The overlap is the end of the previous chunk, so truncation keeps its tail.
+	// Try to truncate at a sentence boundary: keep the last sentences that fit.
 	sentences := splitIntoSentencesWithPositions(overlap)
 	if len(sentences) == 0 {
 		// No sentences, truncate at word boundary
-		return og.generateCharacterOverlap(overlap[:og.config.MaxOverlap])
+		return og.generateCharacterOverlap(tailWithin(overlap, og.config.MaxOverlap))
 	}
 
-	// Find how many sentences fit within MaxOverlap
-	var result strings.Builder
-	for _, s := range sentences {
-		test := result.String()
-		if result.Len() > 0 {
-			test += " "
+	// Find how many trailing sentences fit within MaxOverlap
+	result := ""
+	for i := len(sentences) - 1; i >= 0; i-- {
+		test := sentences[i].text
+		if result != "" {
+			test += " " + result
 		}
-		test += s.text
 
 		if len(test) > og.config.MaxOverlap {
 			break
 		}
-
-		if result.Len() > 0 {
-			result.WriteString(" ")
-		}
-		result.WriteString(s.text)
+		result = test
 	}
 
-	if result.Len() == 0 {
-		// First sentence exceeds max, truncate it
-		return og.generateCharacterOverlap(overlap[:og.config.MaxOverlap])
+	if result == "" {
+		// Last sentence exceeds max, truncate it
+		return og.generateCharacterOverlap(tailWithin(overlap, og.config.MaxOverlap))
 	}
 
-	return result.String()
+	return result
+}
+
+// tailWithin returns the longest suffix of text that has at most max bytes and
+// starts at a character boundary.
+func tailWithin(text string, max int) string {
+	if len(text) <= max {
+		return text
+	}
+	start := len(text) - max
+	for start < len(text) && !utf8.RuneStart(text[start]) {
+		start++
+	}
+	return text[start:]
 }
 
 // sentenceWithPosition holds a sentence and its position in the original text
